@@ -1052,7 +1052,8 @@ fn c05_inner(ctx: &Ctx, case: u64, acc: &mut Acc, lockstep: bool) -> Verdict {
         r: R,
         k: 3,
         tx: r.range(3, 10) as u8,
-        s2d: (2 * n as u64 + 1) * p,
+        // a rotation's worth (as in C04's envelope), or short as in the stock configurations (2..4 periods)
+        s2d: if (case / 7) % 2 == 0 { (2 * n as u64 + 1) * p } else { p * (2 + (case / 14) % 3) },
         rda: 86_400_000_000,
         mps: 1400,
         notify_down: true,
